@@ -27,7 +27,8 @@ def foreign_source(pkgname):
             "type G[X any] struct{ V X }\n\ntype GI[X any] interface{ Get() X; Set(v X) }\n\ntype G2[K comparable, V any] struct{ M map[K]V }\n\n"
             "type C interface{ ~int | ~string }\n\ntype Num interface{ ~int | ~int64 | ~float64 }\n\n"
             "type A = T\n\ntype Ctx = context.Context\n\ntype ID = string\n\ntype Fn = func(x int) (string, error)\n\n"
-            "type Str string\n\nfunc (s Str) String() string { return string(s) }\n") % pkgname
+            "type Str string\n\nfunc (s Str) String() string { return string(s) }\n\n"
+            "type PT *T\n\ntype MT map[string]int\n\ntype FT func() error\n\ntype ST []T\n\ntype CT chan int\n") % pkgname
 
 
 LOCAL_SUPPORT = """
